@@ -304,6 +304,9 @@ def run(ck, ctx):
     C.loops_complete(ck, ctx, "replace-on-success", [("work::Work::record_finished", "graph::GraphFiles::id_from_canonical", "the reported dependency names")])
     single_writer(ck, ctx)
     replace_on_success(ck, ctx)
+    # `deps = msvc` reaches the step: the parsed flag is stored in the Build that run_task is given
+    from . import C10 as R10
+    R10.attr_tables(ck, ctx)
     missing_not_error(ck, ctx)
     no_order(ck, ctx)
     R01.dependents(ck, ctx)
